@@ -142,10 +142,12 @@ int main()
             pbuf[0] = 0;
             size_t wrt;
             std::string addr;
-            // the printer reads one slot past a trailing range in places: give it a neutral slot
-            std::vector<rtosc_arg_val_t> in(v.av);
-            size_t n = in.size();
-            { rtosc_arg_val_t pad; memset(&pad, 0, sizeof(pad)); pad.type = 'N'; in.push_back(pad); }
+            // exact-size heap copy of the value list: a read past its end is an ASan report
+            size_t n = v.av.size();
+            rtosc_arg_val_t *in_p = (rtosc_arg_val_t*)malloc((n ? n : 1) * sizeof(rtosc_arg_val_t));
+            if(n) memcpy(in_p, v.av.data(), n * sizeof(rtosc_arg_val_t));
+            struct Free { void *p; ~Free() { free(p); } } in_free{in_p};
+            struct { rtosc_arg_val_t *p; rtosc_arg_val_t *data() { return p; } } in{in_p};
             if(msg) {
                 auto ab = unhex(f[6]); addr.assign(ab.begin(), ab.end());
                 wrt = rtosc_print_message(addr.c_str(), in.data(), n, pbuf.data(), PBUF, &o, 0);
